@@ -31,6 +31,9 @@ var c07templates = [][]string{
 	/* 15 */ {"do\n local \x01 = 1\n g = \x01\n local \x02 = 2\nend\nlocal \x03 <close> = 1\nlocal \x04 = 2\n"},
 	// two modules started from the same template: the same findings at the same places in both files
 	/* 16 */ {"local \x01 = 1\nlocal \x02 = 2\ng = \x03\nh = \x02\n", "local \x01 = 1\nlocal \x02 = 2\ng = \x03\nh = \x02\n"},
+	// an elseif condition is outside the block of the branch before it
+	/* 17 */ {"if true then\n local \x01 = 1\n g = \x01\nelseif \x02 then\n h = 1\nelseif \x01 then\n k = 2\nend\n"},
+	/* 18 */ {"local \x01 = 1\nif true then\n local \x02 = 2\n g = \x02\nelseif \x03 then\n local \x01 = 3\n h = \x01\nelseif \x01 then\n k = 1\nend\n"},
 }
 
 type c07diag struct {
